@@ -142,7 +142,11 @@ func (e *SpecEnv) eval(x Expr) SV {
 				return v
 			}
 		}
-		e.fail("unknown identifier %q", n.Name)
+		var cands []string
+		for k := range e.spare {
+			cands = append(cands, k)
+		}
+		e.fail("unknown identifier %q (rename candidates: %v)", n.Name, cands)
 		return SV{}
 	case *EOld:
 		o := *e
